@@ -799,3 +799,37 @@ Proof.
   - intros b. apply calm_embedk. intros; exact I.
   - destruct (f t) as [b t'|s t']; [|reflexivity]. rewrite rsolo_embedk. destruct (exec (k b) t'); reflexivity.
 Qed.
+
+(* ... and the heights handed to the listeners are consecutive from the SPV client's tip: no block twice, none skipped *)
+Lemma consecutive_app h l x : consecutive h (l ++ [x]) = consecutive h l && N.eqb x (h + N.of_nat (length l) + 1).
+Proof.
+  revert h. induction l as [|y l IH]; intros h; cbn [List.app consecutive length].
+  - rewrite N.add_0_r, andb_true_r. reflexivity.
+  - rewrite IH. rewrite <- andb_assoc. f_equal. f_equal. f_equal. lia.
+Qed.
+
+Definition hinv (h0 : N) (c : rconf) : Prop :=
+  consecutive h0 (delivered_heights (rc_log c)) = true /\ rc_height c = (h0 + N.of_nat (length (heights_rev (rc_log c))))%N.
+
+Lemma fetch_step_hinv h0 c i first r c1 : hinv h0 c -> fetch_step c i first = (r, c1) -> hinv h0 c1.
+Proof.
+  unfold fetch_step, next_fetch, hinv, delivered_heights. rewrite stall_never_cancels. intros [H1 H2] H.
+  destruct (rc_fetch_or c) as [|a rest]; [|destruct a]; cbn in H;
+    try (destruct first); try (destruct (rc_pending c) as [|[hash txs] pend] eqn:Ep);
+    inversion H; subst; cbn; rewrite ?Ep; cbn; try (split; assumption).
+  all: rewrite consecutive_app, H1, rev_length, H2, N.eqb_refl; split; [reflexivity|lia].
+Qed.
+
+Lemma hinv_step h0 c j c' : hinv h0 c -> rstep c j = Some c' -> hinv h0 c'.
+Proof.
+  intros Hi Hs. destruct (rstep_inv _ _ _ Hs) as [th [Hn Hrel]].
+  destruct Hrel; try exact Hi.
+  unfold hinv, delivered_heights in *. cbn. apply (fetch_step_hinv _ _ _ _ _ _ Hi H0).
+Qed.
+
+Theorem delivered_heights_consecutive c sched :
+  rc_log c = [] -> consecutive (rc_height c) (delivered_heights (rc_log (rrun_config c sched))) = true.
+Proof.
+  intros Hl. assert (H : hinv (rc_height c) (rrun_config c sched)); [|apply H].
+  apply rrun_inv; [intros; eapply hinv_step; eauto|]. unfold hinv, delivered_heights. rewrite Hl. cbn. split; [reflexivity|lia].
+Qed.
